@@ -5,7 +5,7 @@ Each entry pairs the library's Schema with the reference RefSchema built from th
 spec dict.
 """
 from . import env  # noqa: F401
-from .refschema import RefSchema, SchemaRejected
+from .refschema import RefSchema, SchemaRejected, TooComplex
 
 from prosemirror.model import Schema
 
@@ -24,6 +24,16 @@ class Sch:
 
 
 _CAT = None
+
+
+def _reset():
+    global _CAT
+    _CAT = None
+
+
+from . import refschema as _rsm  # noqa: E402
+
+_rsm.RESET_HOOKS.append(_reset)
 
 TOTALITY = ("basic", "list", "strict", "title", "iso", "table", "isolist", "topmarks")
 FLEXIBLE = ("basic", "list", "iso", "isolist", "table", "topmarks")
@@ -270,6 +280,9 @@ def random_schema(rnd, tries=60, **kw):
             ref = RefSchema(spec)
         except SchemaRejected:
             stats["rejected_by_ref"] += 1
+            continue
+        except TooComplex:
+            stats["too_complex"] = stats.get("too_complex", 0) + 1
             continue
         if not ref.well_founded():
             stats["not_well_founded"] += 1
